@@ -5,6 +5,7 @@ import (
 	"sort"
 
 	codectypes "github.com/cosmos/cosmos-sdk/codec/types"
+	sdk "github.com/cosmos/cosmos-sdk/types"
 
 	"github.com/teleport-network/teleport/x/xibc/core/host"
 	"github.com/teleport-network/teleport/x/xibc/exported"
@@ -169,6 +170,20 @@ func (gs GenesisState) Validate() error {
 
 		}
 
+	}
+
+	for i, relayer := range gs.Relayers {
+		if _, err := sdk.AccAddressFromBech32(relayer.Address); err != nil {
+			return fmt.Errorf("invalid relayer address %q index %d: %w", relayer.Address, i, err)
+		}
+		if len(relayer.Chains) != len(relayer.Addresses) {
+			return fmt.Errorf("relayer %s index %d: %d chains but %d addresses", relayer.Address, i, len(relayer.Chains), len(relayer.Addresses))
+		}
+		for _, chain := range relayer.Chains {
+			if err := host.ClientIdentifierValidator(chain); err != nil {
+				return fmt.Errorf("relayer %s index %d: %w", relayer.Address, i, err)
+			}
+		}
 	}
 
 	return host.ClientIdentifierValidator(gs.NativeChainName)
